@@ -64,17 +64,18 @@ Qed.
 (* ---------- 2. the selection is idempotent ; the set holds one DDict per ID ---------- *)
 Lemma select_loaded (s : ds) n id : select (with_loaded D s n) id = with_loaded D (select s id) n.
 Proof.
-  unfold DictIdModel.select, set_active. destruct s as [d u m l ld]; cbn.
-  destruct (m && negb match l with [] => true | _ => false end); [|reflexivity].
+  unfold DictIdModel.select, set_active, live. destruct s as [d u m l ld]; cbn.
+  destruct (m && negb match l with [] => true | _ => false end && match u with DontUse => false | _ => true end); [|reflexivity].
   destruct d; [|reflexivity]. destruct (set_get l id); reflexivity.
 Qed.
 
 Lemma select_idem (s : ds) id : select (select s id) id = select s id.
 Proof.
-  unfold DictIdModel.select, set_active. destruct s as [d u m l ld]; cbn.
-  destruct (m && negb match l with [] => true | _ => false end) eqn:Ea; [|cbn; rewrite Ea; reflexivity].
-  destruct d as [x|]; [|cbn; rewrite Ea; reflexivity].
-  destruct (set_get l id) as [f|] eqn:Eg; cbn; rewrite Ea; cbn; rewrite Eg; reflexivity.
+  unfold DictIdModel.select, set_active, live. destruct s as [d u m l ld]; cbn.
+  destruct (m && negb match l with [] => true | _ => false end) eqn:Ea; cbn; [|rewrite Ea; reflexivity].
+  destruct u; cbn; try (rewrite Ea; reflexivity);
+    (destruct d as [x|]; [|cbn; rewrite Ea; reflexivity]);
+    (destruct (set_get l id) as [f|] eqn:Eg; cbn; rewrite Ea; cbn; rewrite ?Eg; reflexivity).
 Qed.
 
 Definition uniq (l : list D) : Prop := NoDup (map did l).
@@ -117,7 +118,7 @@ Qed.
 Lemma ds_step_uniq (s : ds) (op : iop) : uniq (ds_set D s) -> uniq (ds_set D (fst (ds_step s op))).
 Proof.
   assert (Hsel : forall (t : ds) id, ds_set D (select t id) = ds_set D t).
-  { intros t id. unfold DictIdModel.select. destruct (set_active D t); [|reflexivity]. destruct (ds_dict D t); [|reflexivity].
+  { intros t id. unfold DictIdModel.select. destruct (set_active D t && live D t); [|reflexivity]. destruct (ds_dict D t); [|reflexivity].
     destruct (set_get (ds_set D t) id); reflexivity. }
   assert (Hget : forall t : ds, ds_set D (fst (get_dd D t)) = ds_set D t).
   { intros t. unfold get_dd. destruct (ds_uses D t); reflexivity. }
@@ -162,7 +163,7 @@ Proof.
   assert (Ha : set_active D s = true).
   { unfold set_active. rewrite Hm. destruct (ds_set D s); [contradiction|reflexivity]. }
   assert (Hs1 : select s (did f) = with_dict D s (Some f) UseIndef).
-  { unfold DictIdModel.select. rewrite Ha, Hx, Hg. reflexivity. }
+  { unfold DictIdModel.select, live. rewrite Ha, Hi, Hx, Hg. reflexivity. }
   unfold DictIdModel.frame_step. rewrite Hs1. cbn [get_dd with_dict ds_uses ds_dict].
   rewrite select_loaded. rewrite <- Hs1 at 1. rewrite select_idem, Hs1. cbn [id_of].
   unfold id_ok. rewrite N.eqb_refl, orb_true_r. reflexivity.
@@ -175,27 +176,30 @@ Theorem multi_ddict_keeps (s : ds) (id : N) (x : D) :
 Proof.
   intros Hg Hx Hi.
   assert (Hs1 : forall t : ds, ds_set D t = ds_set D s -> select t id = t).
-  { intros t Ht. unfold DictIdModel.select. destruct (set_active D t); [|reflexivity]. destruct (ds_dict D t); [|reflexivity].
+  { intros t Ht. unfold DictIdModel.select. destruct (set_active D t && live D t); [|reflexivity]. destruct (ds_dict D t); [|reflexivity].
     rewrite Ht, Hg. reflexivity. }
   unfold DictIdModel.frame_step. rewrite (Hs1 s eq_refl). unfold get_dd. rewrite Hi, Hx. cbn [id_of].
   rewrite (Hs1 (with_loaded D s (did x)) eq_refl). reflexivity.
 Qed.
 
 (* ---------- 4. frame by frame through ZSTD_decompressStream = one ZSTD_decompressDCtx call ---------- *)
-(* hypotheses: no single-use prefix is pending (its documented meaning differs between the two entry points) and no used-up
-   prefix has left its pointer behind (dictUses == dont_use with ddict != NULL : the state of finding
-   C02-dstream-stale-prefix-pointer-selects-ddict, where the two entry points do differ) *)
+(* hypothesis: no single-use prefix is pending (its documented meaning differs between the two entry points: next frame / whole
+   call).  Before fix a891479 a second hypothesis was needed - no used-up prefix has left its pointer behind (dictUses == dont_use
+   with ddict != NULL) : see the refutation examples at the end of this file *)
 Definition settled (s : ds) (cur : option D) : Prop :=
   (ds_uses D s = UseIndef /\ cur = ds_dict D s) \/ (ds_uses D s = DontUse /\ ds_dict D s = None /\ cur = None).
 
 Lemma select_uses (s : ds) id : ds_uses D s = UseIndef -> ds_uses D (select s id) = UseIndef.
 Proof.
-  intro H. unfold DictIdModel.select. destruct (set_active D s); [|exact H]. destruct (ds_dict D s); [|exact H].
+  intro H. unfold DictIdModel.select. destruct (set_active D s && live D s); [|exact H]. destruct (ds_dict D s); [|exact H].
   destruct (set_get (ds_set D s) id); [reflexivity|exact H].
 Qed.
 
 Lemma select_none (s : ds) id : ds_dict D s = None -> select s id = s.
-Proof. intro H. unfold DictIdModel.select. destruct (set_active D s); [|reflexivity]. rewrite H. reflexivity. Qed.
+Proof. intro H. unfold DictIdModel.select. destruct (set_active D s && live D s); [|reflexivity]. rewrite H. reflexivity. Qed.
+
+Lemma select_dead (s : ds) id : ds_uses D s = DontUse -> select s id = s.
+Proof. intro H. unfold DictIdModel.select, live. rewrite H, andb_false_r. reflexivity. Qed.
 
 Lemma loop_eq_stream (ids : list N) : forall (s : ds) cur, settled s cur -> oneshot_loop s cur ids = stream_frames s ids.
 Proof.
@@ -207,7 +211,7 @@ Proof.
     assert (Hcur : match ds_dict D s, ds_dict D s with
                    | Some _, Some _ => if set_active D s then match set_get (ds_set D s) id with Some f => Some f | None => ds_dict D s end else ds_dict D s
                    | _, _ => ds_dict D s end = ds_dict D (select s id)).
-    { unfold DictIdModel.select. destruct (ds_dict D s) as [x|] eqn:Ed.
+    { unfold DictIdModel.select, live. rewrite Hu, andb_true_r. destruct (ds_dict D s) as [x|] eqn:Ed.
       - destruct (set_active D s); [|rewrite Ed; reflexivity]. destruct (set_get (ds_set D s) id); [reflexivity|rewrite Ed; reflexivity].
       - destruct (set_active D s); rewrite ?Ed; reflexivity. }
     rewrite Hcur. unfold get_dd. rewrite (select_uses s id Hu).
@@ -223,17 +227,28 @@ Proof.
     rewrite (IH (with_loaded D s 0) None); [reflexivity|]. right. cbn. auto.
 Qed.
 
+(* a used-up prefix (pointer left behind) : the first streamed frame clears it, exactly like the ZSTD_getDDict of a single call *)
+Lemma frame_step_dead (s : ds) id : ds_uses D s = DontUse -> frame_step s id = frame_step (clear_dict D s) id.
+Proof.
+  intro Hu. unfold DictIdModel.frame_step. rewrite (select_dead s id Hu), (select_dead (clear_dict D s) id eq_refl).
+  unfold get_dd. rewrite Hu. cbn [clear_dict with_dict ds_uses]. reflexivity.
+Qed.
+
 Theorem stream_eq_oneshot (s : ds) (ids : list N) :
-  ds_uses D s <> UseOnce -> (ds_uses D s = DontUse -> ds_dict D s = None) ->
+  ds_uses D s <> UseOnce -> ids <> [] ->
   ds_step s (IOneShot D ids) = stream_frames s ids.
 Proof.
-  intros Hn Hstale. cbn [DictIdModel.ds_step]. unfold get_dd.
+  intros Hn Hne. cbn [DictIdModel.ds_step]. unfold get_dd.
   destruct (ds_uses D s) eqn:Eu; [| contradiction Hn; reflexivity |].
-  - assert (Ec : clear_dict D s = s).
-    { specialize (Hstale eq_refl). destruct s as [d u m l ld]. cbn in Eu, Hstale. subst. reflexivity. }
-    rewrite Ec. apply loop_eq_stream. right. auto.
+  - rewrite (loop_eq_stream ids (clear_dict D s) None) by (right; cbn; auto).
+    destruct ids as [|id r]; [contradiction Hne; reflexivity|].
+    cbn [DictIdModel.stream_frames]. rewrite (frame_step_dead s id Eu). reflexivity.
   - apply loop_eq_stream. left. auto.
 Qed.
+
+(* a call over no frame at all decodes nothing; it only clears what a used-up prefix left behind *)
+Lemma oneshot_nil (s : ds) : snd (ds_step s (IOneShot D [])) = [].
+Proof. cbn. destruct (get_dd D s). reflexivity. Qed.
 
 (* ---------- 5. on frames that name no dictionary the model is the round-2 model (DictUseModel.v) ---------- *)
 Definition erase (op : iop) : dop D :=
@@ -249,7 +264,7 @@ Definition dicts (l : list (fres D)) : list (option D) := map (fun r => fst (fst
 
 Lemma select_zero (s : ds) : select s 0 = s.
 Proof.
-  unfold DictIdModel.select. destruct (set_active D s); [|reflexivity]. destruct (ds_dict D s); reflexivity.
+  unfold DictIdModel.select. destruct (set_active D s && live D s); [|reflexivity]. destruct (ds_dict D s); reflexivity.
 Qed.
 
 Lemma loop_zero (ids : list N) : Forall (fun id => id = 0) ids -> forall (s : ds) cur,
@@ -312,15 +327,23 @@ Example multi_oneshot_example :
         [ISetMulti N true; IRefDDict N (Some 11); IRefDDict N (Some 22); IOneShot N [11; 0; 22; 33]])
   = [(Some 11, 11, true); (Some 11, 0, true); (Some 22, 22, true); (Some 22, 33, false)].
 Proof. reflexivity. Qed.
-(* the state the hypothesis of stream_eq_oneshot excludes (finding C02-dstream-stale-prefix-pointer-selects-ddict) :
-   prefix 7 (raw, ID 0) used up by a first frame, then a frame naming 11 : streamed -> decoded from 11 ; single call -> refused *)
-Example stale_pointer_streaming :
+(* the place of finding C02-dstream-stale-prefix-pointer-selects-ddict (repaired by a891479) : prefix 7 (raw, ID 0) used up by a first
+   frame, then a frame naming the referenced DDict 11.  The code as it is now : refused through both entry points *)
+Example used_up_prefix_streaming :
   snd (ds_run N (fun d => if N.eqb d 7 then 0 else d) (ds_new N)
         [ISetMulti N true; IRefDDict N (Some 11); IRefPrefix N (Some 7); IFrame N 0; IFrame N 11])
-  = [(Some 7, 0, true); (Some 11, 11, true)].
+  = [(Some 7, 0, true); (None, 11, false)].
 Proof. reflexivity. Qed.
-Example stale_pointer_oneshot :
+Example used_up_prefix_oneshot :
   snd (ds_run N (fun d => if N.eqb d 7 then 0 else d) (ds_new N)
         [ISetMulti N true; IRefDDict N (Some 11); IRefPrefix N (Some 7); IFrame N 0; IOneShot N [11]])
   = [(Some 7, 0, true); (None, 11, false)].
 Proof. reflexivity. Qed.
+(* REFUTATION of the pre-fix code : with the selection that tests dctx->ddict alone (select_stale) the state left by the used-up
+   prefix selects DDict 11 in the streaming path, which the single call on the same state (ZSTD_getDDict first) never does *)
+Example stale_selection_differs :
+  let s := {| ds_dict := Some 7; ds_uses := DontUse; ds_mdd := true; ds_set := [11]; ds_loaded := 0 |} in
+  ds_dict N (select_stale N (fun d => if N.eqb d 7 then 0 else d) s 11) = Some 11 /\
+  ds_dict N (select N (fun d => if N.eqb d 7 then 0 else d) s 11) = Some 7 /\
+  snd (ds_step N (fun d => if N.eqb d 7 then 0 else d) s (IOneShot N [11])) = [(None, 11, false)].
+Proof. repeat split. Qed.
